@@ -14,6 +14,8 @@ ALTER = {
     "partial_nan": lambda d, rng: d.assign(observed=d["observed"].where(rng.random(len(d)) > 0.35)),
     "all_nan": lambda d, rng: d.assign(observed=np.nan),
     "absent": lambda d, rng: d.drop(columns=["observed"]),
+    "replaced": lambda d, rng: d.assign(observed=np.abs(rng.normal(1.0, 0.2, len(d))) + 0.05),
+    "few_nan": lambda d, rng: d.assign(observed=d["observed"].where(rng.random(len(d)) > 0.05)),
 }
 
 
@@ -31,11 +33,20 @@ def _cmp(p0, p1, cols):
 def replay(case):
     rng = np.random.default_rng(case["seed"])
     fam = case["family"]
-    if fam == "hourly":
+    if fam in ("hourly", "hourly_solar"):
         from bounded.hourly_common import fitted_hourly, hourly_frame
         import opendsm.eemeter as em
-        m, _ = fitted_hourly(case["zone"])
-        df = hourly_frame(case["zone"]).loc[case["start"]:case["end"]]
+        solar = fam == "hourly_solar"
+        m, _ = fitted_hourly(case["zone"], with_ghi=solar)
+        df = hourly_frame(case["zone"], with_ghi=solar).loc[case["start"]:case["end"]].copy()
+        if solar:
+            # gaps in the reporting period's irradiance and temperature (they are filled by the data class)
+            r7 = np.random.default_rng(7)
+            for start in r7.choice(np.arange(24, len(df) - 24), size=12, replace=False):
+                day_noon = (start // 24) * 24 + 10
+                df.iloc[day_noon:day_noon + int(r7.integers(2, 6)), df.columns.get_loc("ghi")] = np.nan   # daytime sensor outages
+            g = r7.choice(len(df), size=6, replace=False)
+            df.iloc[g, df.columns.get_loc("temperature")] = np.nan
         p0 = m.predict(em.HourlyReportingData(df.copy(), is_electricity_data=True), ignore_disqualification=True)
         p1 = m.predict(em.HourlyReportingData(ALTER[case["alter"]](df.copy(), rng), is_electricity_data=True), ignore_disqualification=True)
         if len(p0) != len(p1):
@@ -59,7 +70,13 @@ def replay(case):
         from opendsm.eemeter.models.hourly_caltrack.data import HourlyReportingData as CTR
         from bounded.hourly_common import hourly_frame
         m, _, _ = fitted("caltrack_hourly")
-        df = hourly_frame("UTC").iloc[24 * 365: 24 * 400]
+        df = hourly_frame("UTC").iloc[24 * 365: 24 * 400].copy()
+        # sub-hourly reporting data with some readings of exactly zero (the data class blanks zero electric usage)
+        df = df.resample("30min").ffill()
+        df["observed"] = df["observed"] / 2
+        z = np.random.default_rng(11).choice(len(df), size=40, replace=False)
+        df.iloc[z, df.columns.get_loc("observed")] = 0.0
+        df.iloc[::7, df.columns.get_loc("temperature")] += 1.5
         p0 = m.predict(CTR(df.copy(), is_electricity_data=True))
         p1 = m.predict(CTR(ALTER[case["alter"]](df.copy(), rng), is_electricity_data=True))
         bad = _cmp(p0, p1, ["predicted"])
@@ -84,9 +101,10 @@ def run(tier="quick", seed=0):
             cases.append({"family": "hourly", "zone": z, "start": a, "end": e, "alter": alt, "seed": seed})
     for alt in ALTER:
         cases.append({"family": "daily", "alter": alt, "seed": seed})
-    if tier == "thorough":
-        for alt in ALTER:
-            cases.append({"family": "caltrack_hourly", "alter": alt, "seed": seed})
+    for alt in ("few_nan", "all_nan", "absent", "replaced"):
+        cases.append({"family": "hourly_solar", "zone": "America/Chicago", "start": "2017-05-01", "end": "2017-07-15", "alter": alt, "seed": seed})
+    for alt in (ALTER if tier == "thorough" else ("replaced", "all_nan", "scaled")):
+        cases.append({"family": "caltrack_hourly", "alter": alt, "seed": seed})
     for case in cases:
         try:
             r = replay(case)
